@@ -32,7 +32,7 @@ def gen_cases(ctx):
         n = rng.choice([1, 2, 3, 4, 6, 8, 12])
         yield dict(mode=mode, n=n, batch=rng.choice([[], [], [2], [3]]), dtype=rng.choice(["f64", "f64", "f32"]),
                    family=rng.choice(["full", "lowrank", "tied", "diffpivots"]), rank=rng.randint(1, n + 1),
-                   error_tol=rng.choice([None, 1e-1, 1e-8]), root=classes[i % len(classes)], dkind=rng.choice(["constant", "diag", "batched_constant"]),
+                   error_tol=rng.choice([None, 1e-1, 1e-8]), root=classes[i % len(classes)], dkind=rng.choice(["constant", "diag", "batched_constant", "diag_shared", "diag_equal_entries"]),
                    ptol=rng.choice([None, 1e-1, 1e-6]), seed=rng.randrange(1 << 30))
 
 
@@ -200,6 +200,18 @@ def run_case(case, ctx):
         c = (0.1 + torch.rand(*batch, 1, generator=g, dtype=torch.float64)).to(dt)
         Dop = ConstantDiagLinearOperator(c, n)
         D64 = torch.diag_embed(c.to(torch.float64).expand(*batch, n))
+    elif dk == "diag_shared":
+        # a non-constant diagonal that is the SAME for every member of the batch (repeated / expanded)
+        d0 = (0.1 + torch.rand(n, generator=g, dtype=torch.float64)).to(dt)
+        d = d0.repeat(*batch, 1) if batch and case["seed"] % 2 else d0.expand(*batch, n)
+        Dop = DiagLinearOperator(d)
+        D64 = torch.diag_embed(d.to(torch.float64))
+    elif dk == "diag_equal_entries":
+        # a DiagLinearOperator whose entries happen to be equal within each member (constant-diagonal fast path, value != 1)
+        c = (0.1 + 3 * torch.rand(*batch, 1, generator=g, dtype=torch.float64)).to(dt)
+        d = c.expand(*batch, n).contiguous()
+        Dop = DiagLinearOperator(d)
+        D64 = torch.diag_embed(d.to(torch.float64))
     else:
         d = (0.1 + torch.rand(*batch, n, generator=g, dtype=torch.float64)).to(dt)
         Dop = DiagLinearOperator(d)
